@@ -94,7 +94,7 @@ def numeric_shard(asm, acc, sh, deadline):
                 line = '%s %s' % (name, rng.choice([' ', ', ']).join(spell(x, rng.randrange(3)) for x in vals))
                 pieces = [[x, w, lo, hi, 'little'] for x in vals]
                 judge_numeric(asm, acc, line, [tuple(p) for p in pieces], {'kind': 'num', 'line': line, 'pieces': pieces})
-    for e in '<>':
+    for e in '<>!':          # (`!`, network order, is big-endian: "the given struct format and byte order")
         for f, (w, signed) in PACK.items():
             bits = 8 * w
             lo, hi = (-(1 << (bits - 1)), (1 << (bits - 1)) - 1) if signed else (0, (1 << bits) - 1)
@@ -416,8 +416,8 @@ def plan(tier, seed):
 
 def gates(acc, tier):
     g = []
-    if len(acc['seen'].get('directives', ())) != 9 + 20:
-        g.append('directives exercised: %d of 29' % len(acc['seen'].get('directives', ())))
+    if len(acc['seen'].get('directives', ())) != 9 + 30:
+        g.append('directives exercised: %d of 39' % len(acc['seen'].get('directives', ())))
     if acc['ctr']['misfit_cases'] == 0 or acc['ctr']['fitting_cases'] == 0:
         g.append('value windows did not reach both sides of the width boundaries')
     if acc['ctr']['nonascii_strings'] == 0:
